@@ -233,7 +233,7 @@ type C20Case struct {
 	Initial  WLayer   `json:"initial"`
 	Updates  []WLayer `json:"updates,omitempty"`
 	Blocking []bool   `json:"blocking,omitempty"`
-	ErrAt    int      `json:"err_at"` // before which update the inner source reports an error (-1 never)
+	ErrAt    int      `json:"err_at"`           // before which update the inner source reports an error (-1 never)
 	ByPtr    bool     `json:"by_ptr,omitempty"` // the inner source hands out POINTERS to values of the type it was given (as sourcewrap.Blank does)
 }
 
